@@ -1,4 +1,5 @@
 import RsModel.Lemmas.PosTree
+import RsModel.Lemmas.PosFinalTree
 /-!
 # C02 — reported generated positions are the true positions
 
@@ -60,5 +61,46 @@ example : let t : Src := .cached 0 (.replace (.concat (.cons (.sms [97, 10, 98, 
     · exact ⟨by decide, fun _ => by decide⟩
     · exact ⟨by decide, fun _ => by decide⟩
   · intro p _ m hm; simp [Store.get?] at hm
+
+/-! ## text-less (final_source) mode
+
+`IsPos T p`: `p` is the (line, column) reached after writing some prefix of `T` — "a position of the text".
+`FinOK T r`: every chunk of `r` is reported at a position of `T` and `r.info` is the position after the whole of `T`. -/
+
+/-- **C02, text-less mode, every source tree**: with `final_source = true` (what `map()` and enclosing sources use) every
+reported position is a position of `source()`, and the returned generated-end information is the position after its last
+character.  Same hypotheses as `c02`; `StoreHypB` is `StoreHyp` for the cache entries of either mode (a ReplaceSource streams
+its child with text even in this mode). -/
+theorem c02_final (s : Src) (c : Bool) (σ : Store) (hw : s.WF) (hp : s.PosHyp c) (hn : s.ids.Nodup) (hs : StoreHypB c σ s.cachedNodes) :
+    (∀ k ∈ evsKeys (s.stream ⟨c, true⟩ σ).1.evs, IsPos s.src ⟨k.2.1, k.2.2⟩)
+    ∧ (s.stream ⟨c, true⟩ σ).1.info = adv startPos s.src :=
+  Src.stream_finOK s c σ hw hp hn hs
+
+/-- … and it is the same end information the normal mode returns (whatever the two cache states) -/
+theorem c02_same_info (s : Src) (c : Bool) (σ σ' : Store) (hw : s.WF) (hp : s.PosHyp c) (hn : s.ids.Nodup)
+    (hs : StoreHypB c σ s.cachedNodes) (hs' : StoreHypB c σ' s.cachedNodes) :
+    (s.stream ⟨c, true⟩ σ).1.info = (s.stream ⟨c, false⟩ σ').1.info :=
+  Src.stream_info_modes s c σ σ' hw hp hn hs hs'
+
+/-- on cold caches there is no hypothesis about the store: both modes, one statement -/
+theorem c02_cold (s : Src) (c : Bool) (hw : s.WF) (hp : s.PosHyp c) (hn : s.ids.Nodup) :
+    PosOK (s.stream ⟨c, false⟩ []).1
+    ∧ FinOK s.src (s.stream ⟨c, true⟩ []).1
+    ∧ (s.stream ⟨c, true⟩ []).1.info = (s.stream ⟨c, false⟩ []).1.info := by
+  have h0 : StoreHypB c [] s.cachedNodes := fun p _ f m hm => by simp [Store.get?] at hm
+  exact ⟨Src.stream_posOK s c [] hw hp hn (storeHypB_normal c [] _ h0), Src.stream_finOK s c [] hw hp hn h0,
+    Src.stream_info_modes s c [] [] hw hp hn h0 h0⟩
+
+/-- ConcatSource in either mode, from the children's contracts -/
+theorem c02_concat_final (final : Bool) (children : List SResult) (Ts : List Text) (h : FinAll children Ts) :
+    FinOK Ts.flatten (concatStream final children) := concatStream_finOK final children Ts h
+
+/-- non-vacuity of `IsPos`: (2, 1) is a position of "a\nbc" and (2, 3) is not -/
+example : IsPos [97, 10, 98, 99] ⟨2, 1⟩ := ⟨3, by decide, by decide⟩
+example : ¬ IsPos [97, 10, 98, 99] ⟨2, 3⟩ := by
+  rintro ⟨k, hk, he⟩
+  simp only [List.length_cons, List.length_nil] at hk
+  have : k = 0 ∨ k = 1 ∨ k = 2 ∨ k = 3 ∨ k = 4 := by omega
+  rcases this with rfl | rfl | rfl | rfl | rfl <;> revert he <;> decide
 
 end Rs
